@@ -80,6 +80,10 @@ func TestMC(t *testing.T) {
 	for _, sc := range todo {
 		alphabet = sc.passwords()
 		h := ps.harness(sc)
+		if h.Cleanup == nil {
+			// no state of one execution may be visible to the oracles of the next one
+			h.Cleanup = func() { W, c19m, c12s = nil, nil, nil }
+		}
 		var pruned, full map[string]int
 		nvar := 1
 		if sc.Name == "eligibility" {
